@@ -27,6 +27,7 @@ import (
 	"github.com/vulcand/oxy/v2/memmetrics"
 	"github.com/vulcand/oxy/v2/ratelimit"
 	"github.com/vulcand/oxy/v2/roundrobin"
+	"github.com/vulcand/oxy/v2/roundrobin/stickycookie"
 	"github.com/vulcand/oxy/v2/stream"
 	"github.com/vulcand/oxy/v2/trace"
 	"github.com/vulcand/oxy/v2/utils"
@@ -238,7 +239,7 @@ func main() {
 	// 2. circuit breaker: concurrent requests with failing responses (trips and recoveries happen under load)
 	{
 		scenarios++
-		cb, err := cbreaker.New(flaky, "NetworkErrorRatio() > 0.3", cbreaker.FallbackDuration(time.Millisecond), cbreaker.RecoveryDuration(time.Millisecond), cbreaker.CheckPeriod(time.Microsecond))
+		cb, err := cbreaker.New(flaky, "LatencyAtQuantileMS(50.0) > 100000 || NetworkErrorRatio() > 0.3", cbreaker.FallbackDuration(time.Millisecond), cbreaker.RecoveryDuration(time.Millisecond), cbreaker.CheckPeriod(time.Microsecond))
 		if err != nil {
 			panic(err)
 		}
@@ -431,6 +432,48 @@ func main() {
 				rr.ServeHTTP(httptest.NewRecorder(), req)
 			}
 		})
+	}
+
+	// 3e. sticky sessions with every cookie encoding (raw, hashed, AES-sealed, fallback chain): requests without a
+	// cookie are handed one, requests with one are looked up, all at once; every cookie handed out must lead back to a
+	// server of the pool when it is presented again
+	{
+		aes, err := stickycookie.NewAESValue([]byte("0123456789abcdef0123456789abcdef"), time.Hour)
+		if err != nil {
+			panic(err)
+		}
+		fb, err := stickycookie.NewFallbackValue(aes, &stickycookie.RawValue{})
+		if err != nil {
+			panic(err)
+		}
+		for vi, value := range []stickycookie.CookieValue{&stickycookie.RawValue{}, &stickycookie.HashValue{Salt: "salt"}, aes, fb} {
+			scenarios++
+			ss := roundrobin.NewStickySession("aff").SetCookieValue(value)
+			var lastURL atomic.Value
+			rr, _ := roundrobin.New(http.HandlerFunc(func(w http.ResponseWriter, req *http.Request) { lastURL.Store(req.URL.Host) }),
+				roundrobin.EnableStickySession(ss))
+			urls := []*url.URL{mustURL("http://a:80"), mustURL("http://b:80"), mustURL("http://c:80")}
+			for _, u := range urls {
+				_ = rr.UpsertServer(u)
+			}
+			parallel(G, N, func(gi, i int) {
+				w := httptest.NewRecorder()
+				rr.ServeHTTP(w, request("10.0.0.4"))
+				cookies := w.Result().Cookies()
+				if len(cookies) != 1 {
+					fail("sticky encoding %d: a request without a cookie was handed %d cookies", vi, len(cookies))
+					return
+				}
+				// present it again: it must pin (no new cookie) — a cookie nobody can read pins nobody
+				req := request("10.0.0.4")
+				req.AddCookie(cookies[0])
+				w2 := httptest.NewRecorder()
+				rr.ServeHTTP(w2, req)
+				if again := w2.Result().Cookies(); len(again) != 0 {
+					fail("sticky encoding %d: the cookie just handed out (%q) was not recognised when presented again: a new one was set", vi, cookies[0].Value)
+				}
+			})
+		}
 	}
 
 	// 4. rate limiter: many sources concurrently; every request is either served or rejected
